@@ -60,7 +60,7 @@ pub fn collect_hulc_data<T: AsRef<str>>(
 
     let mut ecdata = Model::try_from(&ctehexmldata)?;
     // Interpreta .kyg y añade datos que faltan con archivos adicionales
-    fix_ecdata_from_extra(&mut ecdata, &kygpath, &tblpath);
+    fix_ecdata_from_extra(&mut ecdata, &kygpath, &tblpath)?;
     // Devuelve datos ampliados y corregidos (U, Fshobst)
     Ok(ecdata)
 }
@@ -70,40 +70,45 @@ pub fn fix_ecdata_from_extra<T: AsRef<Path>>(
     model: &mut Model,
     kygpath: &Option<T>,
     tblpath: &Option<T>,
-) {
+) -> Result<(), Error> {
     let ind = model.energy_indicators();
 
     let mut extra = model
         .walls
         .iter()
-        .map(|w| ExtraData {
-            name: w.name.clone(),
-            bounds: w.bounds,
-            spacetype: model.get_space(w.space).unwrap().kind,
-            nextspace: w.next_to,
-            nextspacetype: w
-                .next_to
-                .as_ref()
-                .and_then(|s| model.get_space(*s))
-                .map(|s| s.kind),
-            tilt: w.geometry.tilt.into(),
-            cons: w.cons,
-            u: 0.0,
-            computed_u: fround2(
-                ind.props
-                    .walls
-                    .get(&w.id)
-                    .and_then(|wp| wp.u_value)
-                    .unwrap_or(0.0),
-            ),
+        .map(|w| -> Result<ExtraData, Error> {
+            Ok(ExtraData {
+                name: w.name.clone(),
+                bounds: w.bounds,
+                spacetype: model
+                    .get_space(w.space)
+                    .ok_or_else(|| format_err!("Espacio del opaco {} no encontrado", w.name))?
+                    .kind,
+                nextspace: w.next_to,
+                nextspacetype: w
+                    .next_to
+                    .as_ref()
+                    .and_then(|s| model.get_space(*s))
+                    .map(|s| s.kind),
+                tilt: w.geometry.tilt.into(),
+                cons: w.cons,
+                u: 0.0,
+                computed_u: fround2(
+                    ind.props
+                        .walls
+                        .get(&w.id)
+                        .and_then(|wp| wp.u_value)
+                        .unwrap_or(0.0),
+                ),
+            })
         })
-        .collect::<Vec<_>>();
+        .collect::<Result<Vec<_>, Error>>()?;
 
     // Actualizaciones de los datos del ctehexmldata con valores del archivo kyg -------
     // Interpreta .kyg y añade datos que faltan
     // TODO: Los añadimos al overrides... podríamos eliminar el extra
     if let Some(kygpath) = &kygpath {
-        let kygdata = kyg::parse_from_path(kygpath).unwrap();
+        let kygdata = kyg::parse_from_path(kygpath)?;
 
         // Modifica U de muros con datos del .kyg
         // XXX: hay que tener cuidado porque estos valores tienen desviaciones con los que se muestran en
@@ -158,12 +163,16 @@ pub fn fix_ecdata_from_extra<T: AsRef<Path>>(
 
     // Actualizamos datos de U de particiones interiores desde el archivo .tbl
     if let Some(tblpath) = &tblpath {
-        let tbldata = tbl::parse(tblpath).unwrap();
+        let tbldata = tbl::parse(tblpath)?;
         for e in &mut extra {
             if e.bounds != BoundaryType::INTERIOR {
                 continue;
             };
-            let w = tbldata.elements.get(e.name.as_str()).unwrap();
+            // Un elemento que no aparece en el .tbl conserva su U calculada
+            let w = match tbldata.elements.get(e.name.as_str()) {
+                Some(w) => w,
+                None => continue,
+            };
             let u_value_override = fround2(w.u);
             e.u = u_value_override;
 
@@ -185,4 +194,5 @@ pub fn fix_ecdata_from_extra<T: AsRef<Path>>(
     extra.retain(|e| f32::abs(e.u - e.computed_u) > 0.001);
 
     model.extra = Some(extra);
+    Ok(())
 }
